@@ -308,6 +308,34 @@ def job_platform(nreq):
                      cfg=dict(io_entries=3, requests=nreq), replay_dir=rdir(), max_paths=400000)
 
 
+def job_irq_reserved():
+    """interrupt numbers reserved through the constructor (SoC irq_reserved_irqs): whatever ends up granted is unique and in range"""
+    stubs()
+    from litex.soc.integration.soc import SoCIRQHandler, SoCError
+
+    def body(ctx):
+        x = ctx.int("irq_a", -1, 33)
+        y = ctx.int("irq_b", -1, 33)
+        nres = ctx.choice("reserved_entries", [0, 1, 2])
+        res = {} if nres == 0 else ({"a": x} if nres == 1 else {"a": x, "b": y})
+        try:
+            h = SoCIRQHandler(n_irqs=32, reserved_irqs=res)
+            h.enable()
+        except SoCError:
+            ctx.event("refused")
+            return None
+        try:
+            h.add("c")
+        except SoCError:
+            pass
+        ctx.event("granted")
+        items = list(h.locs.items())
+        uniq = [items[i][1] != items[j][1] for i in range(len(items)) for j in range(i + 1, len(items))]
+        rng = [AND(v >= 0, v < 32) for _, v in items]
+        return dict(numbers_unique=AND(*uniq) if uniq else True, numbers_in_range=AND(*rng) if rng else True)
+    return run_pysym("irq_reserved", body, ["numbers_unique", "numbers_in_range"], required_events=["refused", "granted"], funcs=FUNCS, cfg=dict(n_irqs=32, reserved="0..2 entries with symbolic numbers"), replay_dir=rdir())
+
+
 def job_platform_two_builds():
     """two platforms built one after the other in the same process from the SAME io list and the same extension (what a script that builds two
     targets, or a test suite, does): in each of them an entry - extension entries included - is granted at most once"""
@@ -352,7 +380,7 @@ def job_platform_two_builds():
 
 def jobs(tier):
     T = tier == "thorough"
-    js = [Job("platform_two_builds", job_platform_two_builds, {}, cost=10, timeout_s=1200),
+    js = [Job("platform_two_builds", job_platform_two_builds, {}, cost=10, timeout_s=1200), Job("irq_reserved", job_irq_reserved, {}, cost=5, timeout_s=600),
           Job("regions_fixed_2", job_regions_fixed, dict(n=2, classes=(None if T else [3, 4, 5, 12, 20, 31])), cost=60, timeout_s=7000),
           Job("regions_fixed_3_classes", job_regions_fixed, dict(n=3, classes=([3, 12, 31] if T else [3, 31])), cost=60, timeout_s=3400),
           Job("regions_io_fixed", job_io_fixed, {}, cost=10, timeout_s=1200),
